@@ -75,6 +75,11 @@ type Disk struct {
 	StSnapDir   string // source
 	StSnapTo    string // destination
 	StSnapDone  bool
+	// the same, counted only over the storage operations issued below a function whose name contains StSnapScope (the
+	// k-th operation of, say, the store switch, however many operations the streaming before it took)
+	StSnapScope   string
+	StSnapScopeAt int64
+	stScopeN      int64
 	SmallWB     bool // open databases with a tiny write buffer so that table files and compactions exist
 	KeepLog     bool
 	openDBs     int64
@@ -284,6 +289,18 @@ func (f *faultyStorage) op(name, file string, size int, torn func(n int)) (error
 		d.StSnapDone = true
 		if err := CopyTree(d.StSnapDir, d.StSnapTo); err != nil {
 			panic("harness: snapshot failed: " + err.Error())
+		}
+	}
+	if d.StSnapScope != "" && !d.StSnapDone && StackHas(d.StSnapScope) {
+		d.stScopeN++
+		if d.stScopeN == d.StSnapScopeAt {
+			if torn != nil && d.StSnapTorn > 0 {
+				torn(d.StSnapTorn)
+			}
+			d.StSnapDone = true
+			if err := CopyTree(d.StSnapDir, d.StSnapTo); err != nil {
+				panic("harness: snapshot failed: " + err.Error())
+			}
 		}
 	}
 	var err error
